@@ -284,3 +284,33 @@ def _elements_c(base, I, conds, depth=0):
             yield from _elements_c(be, I, conds, depth + 4)
     else:
         yield b, conds
+
+
+def pool_kind(prog, module, clsname, pool):
+    """'mp' (multiprocessing pool: map blocks and re-raises), 'executor' (concurrent.futures: map is lazy about
+    exceptions and results), or None when the pool's class cannot be resolved."""
+    kinds = set()
+    for a in tm.alts(pool):
+        if a.op != "call":
+            return None
+        nm = tm.callee_name(a) or ""
+        f = a.args[0]
+        if f.op == "attr" and f.args[1] in ("pool_class", "executor_class"):
+            ci = prog.cls(module, clsname)
+            try:
+                _, expr = prog.lookup_class_attr(ci, f.args[1])
+            except Exception:
+                expr = None
+            import ast
+            nm = ast.unparse(expr) if expr is not None else ""
+            imp = prog.modules[module].imports.get(nm.split(".")[0]) if nm else None
+            if imp and imp[0] in ("from", "name") and len(imp) > 1:
+                nm = "%s.%s" % (imp[1], nm) if not nm.startswith(str(imp[1])) else nm
+        last = nm.split(".")[-1]
+        if "concurrent.futures" in nm or last.endswith("Executor"):
+            kinds.add("executor")
+        elif "multiprocessing" in nm or last in ("ThreadPool", "Pool"):
+            kinds.add("mp")
+        else:
+            return None
+    return kinds.pop() if len(kinds) == 1 else None
